@@ -22,8 +22,29 @@ fn gen_static_read(rng: &mut Rng, points: &[PointCfg]) -> Vec<ReqHeader> {
     let mut headers = Vec::new();
     let n = rng.urange(1, 4);
     for _ in 0..n {
-        match rng.below(10) {
+        match rng.below(11) {
             0..=2 => headers.push(class_header(0, None)),
+            10 => {
+                // analog input dead-bands (g34): every analog input in range, default variation 3
+                let base = points
+                    .iter()
+                    .find(|p| p.ptype == PointType::Analog)
+                    .map(|p| p.index)
+                    .unwrap_or(0);
+                headers.push(ReqHeader {
+                    group: 34,
+                    var: rng.below(4) as u8,
+                    range: match rng.below(3) {
+                        0 => Range::All,
+                        1 => Range::Range16(base.saturating_sub(1), base.saturating_add(rng.below(40) as u16)),
+                        _ => {
+                            let b = base.min(200) as u8;
+                            Range::Range8(b, b.saturating_add(rng.below(20) as u8))
+                        }
+                    },
+                    data: vec![],
+                });
+            }
             3 => {
                 // event classes first (integrity-poll style)
                 headers.push(class_header(1, None));
@@ -341,6 +362,39 @@ impl ReadOracle {
                     2..=4 => Vec::new(),
                     _ => return None,
                 }
+            } else if h.group == 34 {
+                let range = match h.qualifier {
+                    0x06 => None,
+                    0x00 | 0x01 => {
+                        let start = h.start? as u16;
+                        Some((start, start + (h.count as u16 - 1)))
+                    }
+                    _ => return None,
+                };
+                // g34v0 exists only with the all-objects qualifier (anything else is rejected as a whole)
+                if h.var > 3 || (h.var == 0 && range.is_some()) {
+                    return None;
+                }
+                for ((pt, index), _) in snap.iter().filter(|((pt, _), _)| *pt == PointType::Analog) {
+                    if let Some((a, b)) = range {
+                        if *index < a || *index > b {
+                            continue;
+                        }
+                    }
+                    out.push(Expect {
+                        group: 34,
+                        var: if h.var == 0 { 3 } else { h.var },
+                        index: *index,
+                        ptype: *pt,
+                        val: StaticVal {
+                            value: self.ledger.points[&(*pt, *index)].deadband as f64,
+                            bytes: Vec::new(),
+                            flags: 0,
+                            time: None,
+                        },
+                    });
+                }
+                Vec::new()
             } else if let Some(t) = Self::type_of_static_group(h.group) {
                 let range = match h.qualifier {
                     0x06 => None,
@@ -540,7 +594,10 @@ impl Oracle for ReadOracle {
                     {
                         match refapp::decode_objects(&s.bytes[2..], false) {
                             Ok((headers, _)) => self.last_read = Some((s.bytes[0] & 0x0F, headers)),
-                            Err(_) => self.last_read = None,
+                            Err(_) => {
+                                self.bump("probe.read_request_not_decodable_by_reference");
+                                self.last_read = None
+                            }
                         }
                     } else if !matches!(step.op, Op::Repeat) {
                         self.last_read = None;
@@ -556,9 +613,16 @@ impl Oracle for ReadOracle {
                         // a new series: is it the answer to the READ we know?
                         let snap = self.snapshot.take();
                         let mut series = None;
+                        let mut series_unmodelled = false;
+                        let mut series_modelled = false;
                         if let (Some((seq, headers)), Some(snap)) = (&self.last_read, &snap) {
                             if *seq == frag.ctrl.seq {
                                 let expected = self.expected_for(headers, snap);
+                                if expected.is_none() {
+                                    series_unmodelled = true;
+                                } else {
+                                    series_modelled = true;
+                                }
                                 series = Some(Series {
                                     seq_next: (frag.ctrl.seq + 1) & 0x0F,
                                     understood: expected.is_some(),
@@ -584,6 +648,12 @@ impl Oracle for ReadOracle {
                                     continue;
                                 }
                             }
+                        }
+                        if series_unmodelled {
+                            self.bump("probe.read_series_with_unmodelled_header");
+                        }
+                        if series_modelled {
+                            self.bump("probe.read_series_judged_against_snapshot");
                         }
                         self.series = series;
                         if self.series.is_none() {
@@ -669,7 +739,15 @@ impl Oracle for ReadOracle {
                     if sr.understood {
                         for m in meas.iter().filter(|m| !m.is_event) {
                             match sr.expected.get(sr.got) {
-                                Some(e) if object_matches(e, m) => sr.got += 1,
+                                Some(e) if object_matches(e, m) => {
+                                    if e.group == 34 {
+                                        *self
+                                            .counters
+                                            .entry("probe.deadband_object_checked".to_string())
+                                            .or_insert(0) += 1;
+                                    }
+                                    sr.got += 1
+                                }
                                 other => {
                                     let kind = match other {
                                         None => "more-objects-than-selected",
